@@ -162,7 +162,7 @@ func (d *disconnectHandler) handleDisconnect() {
 
 	log := d.election.getLogger()
 	log.Warn("connection_disconnected",
-		append(d.election.logWithContext(d.election.ctx),
+		append(d.election.logWithContext(d.election.runContext()),
 			zap.Duration("grace_period", gracePeriod),
 		)...,
 	)
@@ -197,7 +197,7 @@ func (d *disconnectHandler) handleGracePeriodExpired() {
 			// Reconnected, don't demote (a CLOSED connection is not a reconnect)
 			log := d.election.getLogger()
 			log.Info("connection_reconnected_before_grace_period",
-				d.election.logWithContext(d.election.ctx)...,
+				d.election.logWithContext(d.election.runContext())...,
 			)
 			return
 		}
@@ -208,7 +208,7 @@ func (d *disconnectHandler) handleGracePeriodExpired() {
 		log := d.election.getLogger()
 		disconnectedDuration := time.Since(disconnectedAt)
 		log.Error("demoting_due_to_connection_loss",
-			append(d.election.logWithContext(d.election.ctx),
+			append(d.election.logWithContext(d.election.runContext()),
 				zap.Duration("disconnected_duration", disconnectedDuration),
 			)...,
 		)
@@ -331,7 +331,7 @@ func (e *kvElection) handleReconnectVerificationFailed(err error) {
 
 	log := e.getLogger()
 	log.Error("demoting_due_to_reconnect_verification_failure",
-		append(e.logWithContext(e.ctx),
+		append(e.logWithContext(e.runContext()),
 			zap.Error(err),
 			zap.String("error_type", classifyErrorType(err)),
 		)...,
